@@ -286,11 +286,11 @@ def checkNumBounds (allowNone : Bool) (val bounds incl : PyV) : Except ErrKind U
   | .tuple [lo, hi], .tuple [ilo, ihi], .atom a =>
     match a.num2 with
     | none => .error .unsupported
-    | some v => do
-      let okHi ← boundOk v hi (PyV.atom ihi).isTrue true
-      if !okHi then throw .valueError
-      let okLo ← boundOk v lo (PyV.atom ilo).isTrue false
-      if !okLo then throw .valueError
+    | some v =>
+      match boundOk v hi (PyV.atom ihi).isTrue true, boundOk v lo (PyV.atom ilo).isTrue false with
+      | .ok okHi, .ok okLo => if okHi && okLo then .ok () else .error .valueError
+      | .error e, _ => .error e
+      | _, .error e => .error e
   | _, _, _ => .error .unsupported
 
 /-- src: Number._validate_value / Integer._validate_value -/
@@ -474,6 +474,12 @@ def staticDefaultV (T : PType) (s : Slot) : Option Val :=
   | .static v => some v
   | _ => none
 
+/-- `self.default is None` on the unbound Parameter: the argument, else `_slot_defaults['default']` -/
+def seesNone (T : PType) (dflt : Option Val) : Bool :=
+  match dflt with
+  | some v => v.v.isNone
+  | none => (match staticDefaultV T .default with | some v => v.v.isNone | none => false)
+
 /-- src: Parameter.__init__ with _set_instantiate and _set_allow_None -/
 def baseInit (T : PType) (dflt : Option Val) (args : Slots) (inst : Option Bool) : Param :=
   let isTrue (o : Option Val) : Bool := match o with | some v => v.v.isTrue | none => false
@@ -481,10 +487,8 @@ def baseInit (T : PType) (dflt : Option Val) (args : Slots) (inst : Option Bool)
   -- `self.readonly` on the unbound Parameter: the argument, else _slot_defaults['readonly'] = False
   let readonlyView := match args .readonly with | some v => v.v.truthy | none => false
   let instantiate := if readonlyView then false else match inst with | some b => b | none => typeInstantiate T
-  -- `self.default` on the unbound Parameter
-  let defaultView := match dflt with | some v => some v | none => staticDefaultV T .default
   let allowNone :=
-    if (match defaultView with | some v => v.v.isNone | none => false) then some (boolV true)
+    if seesNone T dflt then some (boolV true)
     else match args .allowNone with
       | some v => some v
       | none => staticDefaultV T .allowNone
@@ -513,6 +517,52 @@ def checked (rx : String → String → Bool) (op name : Nat) (p : Param) : Exce
   | .ok _ => .ok p
   | .error e => .error e
 
+/-- src: Selector.__init__: the first object, used as default when none is given -/
+def selectorAutodefault (a : Slots) : Except ErrKind (Option Val) :=
+  match a .objects with
+  | some ⟨_, .list (x :: _)⟩ => .ok (some (atomV x))
+  | some ⟨_, .dict ((_, x) :: _)⟩ => .ok (some (atomV x))
+  | some ⟨_, .list []⟩ => .ok none
+  | some ⟨_, .dict []⟩ => .ok none
+  | none => .ok none
+  | some _ => .error .unsupported
+
+/-- src: Selector.__init__ up to (and including) `super().__init__` and the `allow_None` fix-up:
+the `objects` setter splits a dict into `names` and `_objects`; `names` is always set -/
+def selectorRaw (op name : Nat) (a : Slots) (inst : Option Bool) (autodefault : Option Val) : Param :=
+  let dflt := match a .default with | some v => some v | none => autodefault
+  let objects : Option Val := match a .objects with
+    | some ⟨_, .dict kvs⟩ => some ⟨.fresh 0 op name Slot.objects.idx, .list (kvs.map (·.2))⟩
+    | o => o
+  let names : Option Val := match a .objects with
+    | some ⟨i, .dict kvs⟩ => some ⟨i, .dict kvs⟩
+    | _ => some ⟨.fresh 0 op name Slot.names.idx, .dict []⟩
+  let b := baseInit .selector dflt a inst
+  let allowNone := match a .allowNone with | some v => some v | none => staticDefaultV .selector .allowNone
+  { b with slots := (((b.slots.set .objects objects).set .names names).set .checkOnSet (a .checkOnSet)).set .allowNone allowNone }
+
+/-- src: Selector.__init__: `if self.default is not None: self._validate_value(self.default)`, then
+`self._update_state()`, which may append the default to the user's own list -/
+def constructSelector (op name : Nat) (a : Slots) (inst : Option Bool) : Except ErrKind Param :=
+  match selectorAutodefault a with
+  | .error e => .error e
+  | .ok autodefault =>
+    let p := selectorRaw op name a inst autodefault
+    match unboundView .selector op name p.slots with
+    | .error e => .error e
+    | .ok view =>
+      match view .default, view .checkOnSet with
+      | some dv, some cos =>
+        match (if dv.v.isNone then .ok () else validateSelector (cfgOf view) dv.v) with
+        | .error e => .error e
+        | .ok _ =>
+          if cos.v == .atom (.bool false) && !dv.v.isNone && (p.slots .objects).isSome then
+            match ensureInObjects p.slots dv.v with
+            | .ok s' => .ok { p with slots := s' }
+            | .error e => .error e
+          else .ok p                                  -- (an `Undefined` `_objects`: appended to a temporary list)
+      | _, _ => .error .unsupported
+
 /-- src: Tuple.__init__: `length` is `len(default)` for a non-empty default, else the argument -/
 def tupleLength (a : Slots) : Except ErrKind (Option Val) :=
   match a .default with
@@ -526,8 +576,7 @@ def tupleLength (a : Slots) : Except ErrKind (Option Val) :=
 
 /-- src: Tuple.__init__: `length is Undefined and self.default is None` -/
 def tupleNoLength (a : Slots) : Bool :=
-  let defaultView := match a .default with | some v => some v | none => staticDefaultV .tuple .default
-  (a .length).isNone && (match defaultView with | some v => v.v.isNone | none => false)
+  (a .length).isNone && seesNone .tuple (a .default)
 
 /-- src: `<Type>.__init__` — the unbound Parameter a declaration creates, or the
 error its constructor raises (before any class exists). -/
@@ -556,37 +605,7 @@ def construct (rx : String → String → Bool) (op name : Nat) (d : Decl) : Exc
     let itemClass := match itemType with | some v => some v | none => some noneV
     let b := baseInit .list (a .default) a d.instantiate
     checked rx op name { b with slots := ((b.slots.set .bounds (a .bounds)).set .itemType itemType).set .itemClass itemClass }
-  | .selector => do
-    -- autodefault: the first object
-    let autodefault ← match a .objects with
-      | some ⟨_, .list (x :: _)⟩ => pure (some (atomV x))
-      | some ⟨_, .dict ((_, x) :: _)⟩ => pure (some (atomV x))
-      | some ⟨_, .list []⟩ | some ⟨_, .dict []⟩ | none => pure none
-      | some _ => throw .unsupported
-    let dflt := match a .default with | some v => some v | none => autodefault
-    -- the `objects` setter
-    let (objects, names) : Option Val × Option Val := match a .objects with
-      | some ⟨i, .dict kvs⟩ => (some ⟨.fresh 0 op name Slot.objects.idx, .list (kvs.map (·.2))⟩, some ⟨i, .dict kvs⟩)
-      | o => (o, some ⟨.fresh 0 op name Slot.names.idx, .dict []⟩)
-    let b := baseInit .selector dflt a d.instantiate
-    let allowNone := match a .allowNone with | some v => some v | none => staticDefaultV .selector .allowNone
-    let slots := (((b.slots.set .objects objects).set .names names).set .checkOnSet (a .checkOnSet)).set .allowNone allowNone
-    let view ← unboundView .selector op name slots
-    match view .default with
-    | none => throw .unsupported
-    | some dv =>
-      if !dv.v.isNone then validateSelector (cfgOf view) dv.v
-      -- self._update_state(): may append the default to the user's own list
-      let slots' ←
-        match view .checkOnSet with
-        | some cos =>
-          if cos.v == .atom (.bool false) && !dv.v.isNone then
-            match objects with
-            | some _ => ensureInObjects slots dv.v
-            | none => pure slots                  -- appended to a temporary list
-          else pure slots
-        | none => throw .unsupported
-      return { b with slots := slots' }
+  | .selector => constructSelector op name a d.instantiate
 
 /-! ## `__param_inheritance` -/
 
